@@ -31,6 +31,15 @@ structure Build.Ok (b : Build) : Prop where
   /-- at most four filters, each may add LZMA_MEMCMPLEN_EXTRA bytes -/
   encSlack : 4 * b.memcmplenExtra ≤ MEMUSAGE_BASE
   recordPos : 0 < b.szIndexRecord
+  /-- threaded .xz decoder in direct mode: as `xzDec` with its own coder struct -/
+  xzDecMt : b.szInternal + b.szStreamDecoderMt + b.szIndexHash + b.szBlockDecoder + 4 * b.optMax + 16384 ≤ MEMUSAGE_BASE
+  /-- threaded encoder, main thread: lzma_internal, the Index with its first Record group, the Index encoder and two
+      copies of the filter options (coder->filters, filters_cache) fit in the LZMA_MEMUSAGE_BASE the estimate adds once -/
+  mtEncMain : b.szInternal + b.szIndex + b.szIndexStream + (b.szIndexGroup + INDEX_GROUP_SIZE * b.szIndexRecord)
+              + b.szIndexEncoder + 8 * b.optMax ≤ MEMUSAGE_BASE
+  /-- threaded encoder, per worker: the Block encoder, the worker's copy of the filter options and the
+      lzma_memcmplen slack fit in the LZMA_MEMUSAGE_BASE that lzma_raw_encoder_memusage() adds per thread -/
+  mtEncWorker : b.szBlockEncoder + 4 * b.optMax + 4 * b.memcmplenExtra ≤ MEMUSAGE_BASE
 
 /-! ## Decoder chains -/
 
